@@ -146,6 +146,11 @@ def run_for(ctx, pid):
     for fam in fams:
         behs = generate(ctx, fam, 1)
         replay_all(ctx, behs, pid, "family " + fam, "rotate" if ctx.quick() else "all")
+    if pid == "C06":
+        # every sequence of 2 (thorough: 3) injections into one frame over a small set of bounding ranges of equal and
+        # different width / place, with and without frequency sub-sampling (exhaustive)
+        behs = generate(ctx, "seq", ctx.pick(2, 3))
+        replay_all(ctx, behs, pid, "family seq", "rotate")
     behs = generate(ctx, "pick", 1 if pid == "C01" else 3, simulate=ctx.pick(800, 40000))
     replay_all(ctx, behs, pid, "random cross product", "rotate")
 
